@@ -288,7 +288,13 @@ impl NaturalRange {
         F: FnMut(NaturalBound, NaturalBound) -> NaturalBound,
     {
         let lhs = self;
-        let lower = f(lhs.lower().into_bound(), rhs.lower().into_bound()).into_lower();
+        // An open lower bound is zero (the identity of conjunction), unlike an open upper bound,
+        // which is unbounded (and absorbing).
+        let lower = f(
+            NaturalBound::from(lhs.lower().into_usize()),
+            NaturalBound::from(rhs.lower().into_usize()),
+        )
+        .into_lower();
         let upper = f(lhs.upper().into_bound(), rhs.upper().into_bound()).into_upper();
         Self::from_closed_and_open(lower.into_usize(), upper.into_usize())
     }
